@@ -15,6 +15,7 @@ structure Inv (c : Cfg) (m : M) : Prop where
   states : ∀ j s, s ∈ (colAt m.cols j).states → Good c s j
   dots : ∀ j s, s ∈ (colAt m.cols j).dots → Good c s j
   frame : ∀ t i, m.frame = some (t, i) → Good c t m.k ∧ t.item.finished = true
+  pend : ∀ t, t ∈ m.pending → Good c t m.k ∧ t.item.finished = true
   out : ∀ pt, pt ∈ m.out → TopOk c pt
 
 /-- all states of all columns are good -/
@@ -113,7 +114,7 @@ theorem good_start (c : Cfg) : Good c { item := startItem c.start, kids := [] } 
 theorem inv_init (c : Cfg) (_hs : SaneS c) : Inv c (M.init c) := by
   have hg : GoodCols c (M.init c).cols :=
     goodCols_addAt c.policy 0 _ (goodCols_replicate c c.ncols) (good_start c)
-  exact ⟨hg.1, hg.2, (by intro t i h; cases h), (by intro pt h; cases h)⟩
+  exact ⟨hg.1, hg.2, (by intro t i h; cases h), (by intro t h; cases h), (by intro pt h; cases h)⟩
 
 /-! ### predict -/
 
@@ -430,6 +431,13 @@ def Res.mach : Res → M
   | .done m => m
   | .raised m => m
 
+theorem mem_doneOf' {col : Col} {k : Nat} {x : NT} {s : St} (h : s ∈ doneOf col k x) :
+    s ∈ col.states ∧ s.item.finished = true := by
+  unfold doneOf at h
+  obtain ⟨h1, h2⟩ := List.mem_filter.1 h
+  simp only [Bool.and_eq_true] at h2
+  exact ⟨h1, h2.2⟩
+
 theorem inv_step_mach (c : Cfg) (hs : SaneS c) (m : M) (hi : Inv c m) : Inv c (step c m).mach := by
   have hg : GoodCols c m.cols := ⟨hi.states, hi.dots⟩
   unfold step
@@ -440,7 +448,7 @@ theorem inv_step_mach (c : Cfg) (hs : SaneS c) (m : M) (hi : Inv c m) : Inv c (s
       rename_i t j hfr
       obtain ⟨htg, htf⟩ := hi.frame t j hfr
       split
-      · exact ⟨hi.states, hi.dots, (by intro t' i' h; cases h), hi.out⟩
+      · exact ⟨hi.states, hi.dots, (by intro t' i' h; cases h), hi.pend, hi.out⟩
       · rename_i s hsome
         have hsmem : s ∈ (colAt m.cols t.item.origin).findDot t.item.lhs := List.mem_of_getElem? hsome
         have hsg : Good c s t.item.origin := hi.dots _ _ (mem_findDot hsmem)
@@ -449,68 +457,90 @@ theorem inv_step_mach (c : Cfg) (hs : SaneS c) (m : M) (hi : Inv c m) : Inv c (s
         · rename_i s' hadv
           have hs'g := advance_good htg htf hsg hdot hadv
           have hg' := goodCols_addAt c.policy m.k s' hg hs'g
-          refine ⟨hg'.1, hg'.2, ?_, hi.out⟩
+          refine ⟨hg'.1, hg'.2, ?_, hi.pend, hi.out⟩
           intro t' i' h
           simp only [Res.mach, Option.some.injEq, Prod.mk.injEq] at h
           rw [← h.1]; exact ⟨htg, htf⟩
-        · refine ⟨hi.states, hi.dots, ?_, hi.out⟩
+        · refine ⟨hi.states, hi.dots, ?_, hi.pend, hi.out⟩
           intro t' i' h
           simp only [Res.mach, Option.some.injEq, Prod.mk.injEq] at h
           rw [← h.1]; exact ⟨htg, htf⟩
     · rename_i hfr
       split
-      · -- end of the column
-        have hg' := goodCols_shortcut hs hg m.k
-        refine ⟨hg'.1, hg'.2, ?_, hi.out⟩
-        intro t' i' h
-        simp only [Res.mach] at h
-        rw [hfr] at h; cases h
-      · rename_i s hsome
-        have hsmem : s ∈ (colAt m.cols m.k).states := List.mem_of_getElem? hsome
-        have hsg := hi.states _ _ hsmem
+      · -- the next pending `complete` of `predict`
+        rename_i t rest hpend
+        have hpt := hi.pend t (by rw [hpend]; exact List.mem_cons_self)
+        refine ⟨hi.states, hi.dots, ?_, ?_, hi.out⟩
+        · intro t' i' h
+          simp only [Res.mach] at h
+          split at h
+          · cases h
+          · have h2 : t = t' := (Prod.mk.inj (Option.some.inj h)).1
+            rw [← h2]; exact hpt
+        · intro t' ht'
+          simp only [Res.mach] at ht'
+          exact hi.pend t' (by rw [hpend]; exact List.mem_cons_of_mem _ ht')
+      · rename_i hpend
+        have hnp : ∀ t, t ∈ m.pending → Good c t m.k ∧ t.item.finished = true := hi.pend
         split
-        · -- finished: open the frame, maybe yield
-          rename_i hfin
-          refine ⟨hi.states, hi.dots, ?_, ?_⟩
+        · -- end of the column
+          have hg' := goodCols_shortcut hs hg m.k
+          refine ⟨hg'.1, hg'.2, ?_, ?_, hi.out⟩
           · intro t' i' h
             simp only [Res.mach] at h
-            -- robust to the frame being `some (s, 0)` or `if … then none else some (s, 0)`
-            have h2 : s = t' := by
-              first
-              | exact (Prod.mk.inj (Option.some.inj h)).1
-              | (split at h
-                 · cases h
-                 · exact (Prod.mk.inj (Option.some.inj h)).1)
-            rw [← h2]; exact ⟨hsg, hfin⟩
-          · intro pt hpt
-            simp only [Res.mach] at hpt
-            split at hpt
-            · rename_i hcond
-              rcases List.mem_append.1 hpt with h | h
-              · exact hi.out _ h
-              · exact top_of_good hs hsg hfin hcond.1 hcond.2 pt h
-            · exact hi.out _ hpt
-        · split
-          · exact ⟨hi.states, hi.dots, (by intro t' i' h; simp only [Res.mach] at h; rw [hfr] at h; cases h), hi.out⟩
-          · -- predict
-            rename_i x a r hsym
-            have hx := good_sym_ne_start hs hsg hsym
-            have hg' := goodCols_pred (c := c) (k := m.k) hx (c.pred m.k x)
-              (fun rhs hr => hs.pred_sub _ _ _ hr) m.cols hg
-            exact ⟨hg'.1, hg'.2, (by intro t' i' h; simp only [Res.mach] at h; rw [hfr] at h; cases h), hi.out⟩
-          · -- scan
-            rename_i term hsym
-            split
-            · exact ⟨hi.states, hi.dots, (by intro t' i' h; simp only [Res.mach] at h; rw [hfr] at h; cases h), hi.out⟩
-            · rename_i e l hscan
+            rw [hfr] at h; cases h
+          · intro t' ht'
+            simp only [Res.mach] at ht'
+            rw [hpend] at ht'; cases ht'
+        · rename_i s hsome
+          have hsmem : s ∈ (colAt m.cols m.k).states := List.mem_of_getElem? hsome
+          have hsg := hi.states _ _ hsmem
+          split
+          · -- finished: open the frame, maybe yield
+            rename_i hfin
+            refine ⟨hi.states, hi.dots, ?_, hi.pend, ?_⟩
+            · intro t' i' h
+              simp only [Res.mach] at h
+              have h2 : s = t' := by
+                split at h
+                · cases h
+                · exact (Prod.mk.inj (Option.some.inj h)).1
+              rw [← h2]; exact ⟨hsg, hfin⟩
+            · intro pt hpt
+              simp only [Res.mach] at hpt
+              split at hpt
+              · rename_i hcond
+                rcases List.mem_append.1 hpt with h | h
+                · exact hi.out _ h
+                · exact top_of_good hs hsg hfin hcond.1 hcond.2 pt h
+              · exact hi.out _ hpt
+          · split
+            · exact ⟨hi.states, hi.dots, (by intro t' i' h; simp only [Res.mach] at h; rw [hfr] at h; cases h), hi.pend, hi.out⟩
+            · -- predict
+              rename_i x a r hsym
+              have hx := good_sym_ne_start hs hsg hsym
+              have hg' := goodCols_pred (c := c) (k := m.k) hx (c.pred m.k x)
+                (fun rhs hr => hs.pred_sub _ _ _ hr) m.cols hg
+              refine ⟨hg'.1, hg'.2, (by intro t' i' h; simp only [Res.mach] at h; rw [hfr] at h; cases h), ?_, hi.out⟩
+              intro t' ht'
+              simp only [Res.mach] at ht'
+              split at ht'
+              · obtain ⟨h1, h2⟩ := mem_doneOf' ht'
+                exact ⟨hg'.1 _ _ h1, h2⟩
+              · cases ht'
+            · -- scan
+              rename_i term hsym
               split
-              · exact hi
-              · have hn : Good c { item := s.item.next, kids := s.kids ++ [PT.leaf l], cover := s.cover } e := by
-                  apply good_next hsg hsym
-                  intro j ks hd
-                  exact DerL.term hscan hd
-                have hg' := goodCols_addAt c.policy e _ hg hn
-                exact ⟨hg'.1, hg'.2, (by intro t' i' h; simp only [Res.mach] at h; rw [hfr] at h; cases h), hi.out⟩
+              · exact ⟨hi.states, hi.dots, (by intro t' i' h; simp only [Res.mach] at h; rw [hfr] at h; cases h), hi.pend, hi.out⟩
+              · rename_i e l hscan
+                split
+                · exact hi
+                · have hn : Good c { item := s.item.next, kids := s.kids ++ [PT.leaf l], cover := s.cover } e := by
+                    apply good_next hsg hsym
+                    intro j ks hd
+                    exact DerL.term hscan hd
+                  have hg' := goodCols_addAt c.policy e _ hg hn
+                  exact ⟨hg'.1, hg'.2, (by intro t' i' h; simp only [Res.mach] at h; rw [hfr] at h; cases h), hi.pend, hi.out⟩
 
 theorem inv_step (c : Cfg) (hs : SaneS c) (m : M) (hi : Inv c m) :
     (∀ m', step c m = .next m' → Inv c m') ∧ (∀ m', step c m = .done m' → Inv c m') ∧
